@@ -11,6 +11,9 @@
 From Coq Require Import List ZArith Bool Reals.
 From GMGP Require Import Scalar ScalarR InterpDefs StencilDefs SmootherDefs SmootherProofs.
 Import ListNotations.
+From GMGP Require Import StencilDefs StencilTie StencilTieSmoother ScalarR.
+From GMGPGen Require Import StencilGen.
+From Coq Require Import Reals.
 
 Theorem C06_sweep_fixes_solution : forall (node V : Type) (Aapp : (node -> V) -> node -> V) (deps : node -> list node),
   (forall x y p, (forall q, In q (deps p) -> x q = y q) -> Aapp x p = Aapp y p) ->
@@ -39,6 +42,30 @@ Theorem C06_dirichlet_nodes_get_data : forall (node V : Type) (Aapp : (node -> V
   (forall y, Aapp y p = y p) -> bgs_rel node V Aapp (U :: blocks) x f x' -> In p U ->
   (forall W, In W blocks -> ~ In p W) -> x' p = f p.
 Proof. exact identity_row_gets_data. Qed.
+
+(* ---- the A_sc_ortho kernels of the take smoother as translator T3 regenerates them from NODE_APPLY_ASC_ORTHO_CIRCLE_TAKE and
+   NODE_APPLY_ASC_ORTHO_RADIAL_TAKE: for a node of the line being relaxed they write  temp := rhs - (couplings of the node's row
+   of A to nodes OUTSIDE its line) . x, which is the right-hand side of the block update of the model (SmootherDefs.local_row);
+   on a radial line the coupling of row nr-2 to the Dirichlet node of the same line is moved to the right-hand side with the
+   boundary value (symmetry shift).  Premise nsc in [1, nr-3] is what the smoother asserts. ---- *)
+Theorem C06_generated_asc_ortho_circle_take :
+  forall (nr nth nsc : Z) (h k rad : Z -> R) (arr att art det : Z -> Z -> R) (beta : Z -> R) (dirbc : bool),
+  (2 <= nth)%Z -> (1 <= nsc <= nr - 3)%Z ->
+  forall (rhs x : Z -> Z -> R) (i j : Z), (0 <= i < nsc)%Z -> (0 <= j < nth)%Z ->
+  @gen_asc_ortho_circle_take Rsc nth nsc h k rad arr art dirbc rhs x i j =
+  [ (((i, j), W_temp_WAssign),
+     (rhs i j - @InterpDefs.apply_row2 Rsc (off_circle i (@A_take_row Rsc nr nth h k (rad 0%Z) arr att art det beta dirbc i j)) x)%R) ].
+Proof. exact gen_asc_ortho_circle_take_is_model. Qed.
+
+Theorem C06_generated_asc_ortho_radial_take :
+  forall (nr nth nsc : Z) (h k rad : Z -> R) (arr att art det : Z -> Z -> R) (beta : Z -> R) (dirbc : bool),
+  (4 <= nr)%Z -> (2 <= nth)%Z -> (1 <= nsc <= nr - 3)%Z ->
+  forall (rhs x : Z -> Z -> R) (i j : Z), (nsc <= i < nr)%Z -> (0 <= j < nth)%Z ->
+  @gen_asc_ortho_radial_take Rsc nr nth nsc h k arr att art rhs x i j =
+  [ (((i, j), W_temp_WAssign),
+     (rhs i j - @InterpDefs.apply_row2 Rsc (off_radial nsc j (@A_take_row Rsc nr nth h k (rad 0%Z) arr att art det beta dirbc i j)) x
+      - (if (i =? nr - 2)%Z then right_coupling nth h k arr i j * rhs (i + 1)%Z j else 0))%R) ].
+Proof. exact gen_asc_ortho_radial_take_is_model. Qed.
 
 Print Assumptions C06_sweep_fixes_solution.
 Print Assumptions C06_zebra_last_colour_residual_zero.
